@@ -100,7 +100,7 @@ open stream of a streamed response — at any later point (a reset is then deliv
 the body: phases `UpRecvData` / `UpRecvTrailer`) -/
 theorem inv_reset_destroy (c : Cfg) (ar aq : Nat) (s : S) (k : Nat) (r : Reason) (fire : Bool) (h : Inv c ar aq s)
     (hlc : streamLiveCounted s k = true)
-    (hfire : fire = true → s.urr = true → s.phase = .UpRecvData ∨ s.phase = .UpRecvTrailer) :
+    (hfire : fire = true → s.urr = true → s.phase = .UpRecvData ∨ s.phase = .UpRecvTrailer ∨ s.phase = .UpFilter) :
     Inv c ar aq (destroyStream c (if fire then upOnResetStream s r else s) k) := by
   have hlpos := liveCounted_pos s k hlc
   obtain ⟨hcl, how, hph⟩ := live_ctx c ar aq s h hlpos
@@ -170,7 +170,7 @@ theorem inv_reset_destroy (c : Cfg) (ar aq : Nat) (s : S) (k : Nat) (r : Reason)
         cases hu : s.urr with
         | false => rfl
         | true =>
-          rcases hfire rfl hu with hp | hp <;> (rw [hp] at hfwd; simp [fwdPhase] at hfwd)
+          rcases hfire rfl hu with hp | hp | hp <;> (rw [hp] at hfwd; simp [fwdPhase] at hfwd)
       refine ⟨k0, k1, k2, k3, k4, k5, k6, h7', k8, k9, hd.1, hd.2.1, k12, ?_, hd.2.2, ?_, k16, ?_, ?_, k19, ?_, k21, h22, h23, k24, k25, ?_, ?_, ?_, k29, h30, k31, k32, (fun hh => absurd hh (by simp [upOnResetStream, hcl]))⟩
       · intro hh; exact absurd hh (by simp [upOnResetStream, hcl])
       · intro _ hh; exact absurd hh (by simp [upOnResetStream, hup])
@@ -188,7 +188,12 @@ theorem inv_reset_destroy (c : Cfg) (ar aq : Nat) (s : S) (k : Nat) (r : Reason)
       refine ⟨k0, k1, k2, k3, k4, k5, k6, h7', k8, k9, hd.1, hd.2.1, k12, ?_, hd.2.2, ?_, ?_, ?_, ?_, k19, ?_, k21, h22, h23, k24, k25, ?_, ?_, ?_, k29, h30, k31, k32, (fun hh => absurd hh (by simp [upOnResetStream, hcl]))⟩
       · intro hh; exact absurd hh (by simp [upOnResetStream, hcl])
       · intro _ _
-        refine ⟨Or.inl hl0, by simpa [upOnResetStream] using b2, fun _ => by simpa [upOnResetStream] using hphase,
+        refine ⟨Or.inl hl0, by simpa [upOnResetStream] using b2, fun _ => by
+            show s.phase = .UpRecvData ∨ s.phase = .UpRecvTrailer ∨ (s.phase = .UpFilter ∧ s.urr = true)
+            rcases hphase with hq | hq | hq
+            · exact Or.inl hq
+            · exact Or.inr (Or.inl hq)
+            · exact Or.inr (Or.inr ⟨hq, hurr⟩),
           Or.inr (by simpa [upOnResetStream] using hurr), by simpa [upOnResetStream] using b5,
           by simpa [upOnResetStream] using b6, by simpa [upOnResetStream] using b7⟩
       · intro _ hh; exact absurd hh (by simp [upOnResetStream, hupp])
@@ -217,12 +222,18 @@ theorem inv_upReset (c : Cfg) (ar aq : Nat) (s : S) (k : Nat) (r : Reason) (h : 
       · rename_i hbw
         apply inv_reset_destroy c ar aq s k r st.listening h hlc
         intro _ hu
-        have : bodyWait s = true := by
-          cases hb : bodyWait s with
-          | true => rfl
-          | false => simp [hu, hb] at hbw
-        simp only [bodyWait, Bool.and_eq_true, Bool.or_eq_true, beq_iff_eq] at this
-        exact this.1.1.2
+        cases hb : bodyWait s with
+        | true =>
+          simp only [bodyWait, Bool.and_eq_true, Bool.or_eq_true, beq_iff_eq] at hb
+          rcases hb.1.1.2 with hq | hq
+          · exact Or.inl hq
+          · exact Or.inr (Or.inl hq)
+        | false =>
+          cases hf : upfRunning s with
+          | true =>
+            simp only [upfRunning, Bool.and_eq_true, beq_iff_eq] at hf
+            exact Or.inr (Or.inr hf.2)
+          | false => simp [hu, hb, hf] at hbw
 
 /-- the streamed body ended: the codec destroys the client stream -/
 theorem inv_upEnd (c : Cfg) (ar aq : Nat) (s : S) (k : Nat) (h : Inv c ar aq s) : Inv c ar aq (upEndL c s k) := by
